@@ -70,6 +70,8 @@ inline std::vector<std::vector<double>> genPoints(Rng& r, int n, int ndim, int s
 {
   std::set<std::vector<long>> seen;
   std::vector<std::vector<double>> X;
+  // enough distinct lattice positions for n points
+  for (;;) { double cap = 1.; for (int d = 0; d < ndim; d++) cap *= (span * 4 + 1); if (cap >= 3. * n) break; span *= 2; }
   while ((int)X.size() < n)
   {
     std::vector<long> k(ndim);
